@@ -717,7 +717,34 @@ def c17_sessions(u, groups, rng, tier):
                     sess.append(('(rt %s ptr %s)' % (n, val_sx(v)), {'op': 'rt', 'type': n}))
         sessions.append(sess)
         envs.append(None)
-    return {'sessions': sessions, 'envs': envs}
+    # the model of strconv.ParseUint(s, 0, 64) against the standard library: valid numerals in every spelling,
+    # mutations of them (a character replaced, inserted, dropped, doubled underscore), boundary values around
+    # 2^63 and 2^64 in every base, and short random strings over the alphabet the parser distinguishes
+    rp = rng.fork('parseuint')
+    strs = ['', '0', '00', '0x', '0X1', '0b', '0o', '_', '0_', '0_0', '0__0', '_0', '0x_', '0x_0', '0x0_', '+1', '-1', ' 1', '1 ',
+            '08', '0o8', '0b2', '0xg', '0xG', '0Xf', '1e3', '0e', '0b_1_0', '0_17', '1_2_3', '12__3', '0x1_', 'x1', '0z1']
+    for base, pre in ((10, ''), (16, '0x'), (16, '0X'), (2, '0b'), (8, '0o'), (8, '0')):
+        for v in ((1 << 63) - 1, 1 << 63, (1 << 64) - 1, 1 << 64, (1 << 64) + 1, (1 << 64) * base, ((1 << 64) - 1) // base + 1,
+                  ((1 << 64) - 1) // base, 10 ** 30):
+            digs = {10: '%d', 16: '%x', 8: '%o'}.get(base, None)
+            strs.append(pre + (digs % v if digs else bin(v)[2:]))
+    alphabet = '0123456789abcdefABCDEFxXoObB_gzZ+- .'
+    for _ in range(150 if tier == 'quick' else 3000):
+        k = rp.below(4)
+        if k == 0:
+            t = ''.join(rp.pick(alphabet) for _ in range(1 + rp.below(6)))
+        else:
+            t = env_numeral(rp, rp.pick([1, 256]))
+            if k >= 2:
+                i = rp.below(len(t) + 1)
+                m = rp.below(4)
+                if m == 0: t = t[:i] + rp.pick(alphabet) + t[i:]
+                elif m == 1 and t: t = t[:i] + rp.pick(alphabet) + t[i + 1:]
+                elif m == 2 and t: t = t[:i] + t[i + 1:]
+                else: t = t[:i] + '_' + t[i:]
+        strs.append(t)
+    pcases = [('(parseuint %s)' % (t.encode().hex() or '-'), {'op': 'parseuint', 'len': min(len(t), 24)}) for t in dict.fromkeys(strs)]
+    return {'sessions': sessions, 'envs': envs, 'cases': pcases}
 
 
 def c18_cases(u, groups, rng, tier):
